@@ -36,7 +36,7 @@ CHECKS = {
          "float accumulate through the padded matrix compared bit-exactly with numpy per row.", "4.7, 10.3", ""),
  "C08": ("Coq proofs concat0/concat1/like/where/where_scalar/subset/ragged_slice (ragged, 1-D and 2-D inputs)/nonzero/padded_correct + ragged_slice window arithmetic re-translated and tied + correspondence",
          "Structural functions are polymorphic list functions; theorems state row-structure preservation. ragged_slice is proved for ragged, 1-D and 2-D inputs; its per-row arithmetic (defaults included) is re-translated from raggedslice.py on every run. Correspondence only: NPSArray[starts:ends], empty_like, dtype pairs of where.", "4.8, 10.3", ""),
- "C09": ("Coq proofs colsum_correct, col_counts_correct, get_column_values_correct + correspondence incl. integers beyond 2^53 and float32 precision cases",
+ "C09": ("Coq proofs colsum_correct, col_counts_correct, ra_col_mean_correct, get_column_values_correct + correspondence incl. integers beyond 2^53 and float32 precision cases",
          "Column sums count every row that reaches the column once; col_counts is the suffix count of lengths; get_column_values lists the j-th elements in row order. Correspondence only: the one division of mean, dtype branches.", "4.9, 10.3", ""),
  "C10": ("Coq proof of run_sim / C10_partial_concrete (heap-with-lazy-views machine refines value semantics on safe histories, concrete selector grammar, sound boolean guard) + C10_refuted witness + correspondence on history pairs",
          "The full statement is false of the faithful model (C10_refuted, reproduced on the real code: known finding K1); C10_partial_concrete proves it for histories in which no "
@@ -54,7 +54,7 @@ CHECKS = {
          "Run-length slicing decodes to Python's dense[a:b:c] for all bounds and steps; integer / list / mask / run-length-mask / window indexing equal the dense indexing.", "4.15, 10.3", ""),
  "C16": ("Coq proof apply_binary_correct (arbitrary unrelated boundaries), rl_map/sum/any/all/max/mean/hist/concat_correct + dtype-wide correspondence",
          "Merged-boundary binary ufunc decodes to map2 of the dense arrays and has no equal neighbours; reductions on run values equal reductions of the decoded array.", "4.16, 10.3", ""),
- "C17": ("Coq proofs from_ragged_decode, from_matrix_decode, rl2_select/map/concat/sum/max_argmax/col/ravel/elem, rl2_col_sum(_matrix)_correct, rl2_col_counts_correct, from_intervals_decode, rl2_col_range_pos (every positive-step column slice that is non-empty in every row: Python's slice of every dense row), rl2_col_range_neg (negative steps with every given bound inside the rows, open bounds included), col_any_matrix (any(axis=0) of the matrix variant) + step-subset kernel tie + correspondence (model and dense numpy), and the dense data",
+ "C17": ("Coq proofs from_ragged_decode, from_matrix_decode, rl2_select/map/concat/sum/max_argmax/col/ravel/elem, rl2_col_sum(_matrix)_correct, rl2_col_counts_correct, from_intervals_decode, rl2_col_range_pos (every positive-step column slice that is non-empty in every row: Python's slice of every dense row), rl2_col_range_neg (negative steps with every given bound inside the rows, open bounds included), col_any_matrix (any(axis=0) of the matrix variant), rl2_col_mean_correct (mean(axis=0) = sum(axis=0)/col_counts() through the binary path, the division a parameter), rl2_any/all/mean_rows_correct with ragged_row_aggregates and matrix_row_aggregates (any, all, mean along the rows of every encoded array) + step-subset kernel tie + correspondence (model and dense numpy), and the dense data",
          "Row-wise lock-step representation; column sums (sorted change events + running sums) and column counts decode to the dense column sums / counts for every column. from_intervals decodes to the indicator matrix. Column ranges are proved as the property states them (any positive-step slice; negative steps with bounds inside the rows); any(axis=0) on the matrix variant is modelled as written (Model/RL2Any.v) and proved (col_any_matrix: the column-wise OR of the rows, through the interval-union sweep theorem sweep_intervals); float column sums are compared bit for bit with numpy's.", "4.17, 10.3", ""),
  "C18": ("Coq proof obj_select_entries / obj_item_entry / obj_concat_entries / obj_eqb_iff / obj_astype_* / obj_iter_entries / varlen_rows + correspondence on run-time generated dataclasses",
          "Applying one selector to every field equals selecting entries of the table; concatenation concatenates the tables; astype keeps every value under its own field name; iteration yields the entries in order; VarLenArray concatenation right-aligns.", "4.18, 10.3", ""),
